@@ -28,9 +28,9 @@ Profile profile_for(const std::string &c) {
     p.sub_flag_bits = 2 | 4;
     p.multi_loop = true;
     if (c == "C01") {
-        set(p.w_driver, {{LIFE, 40}, {MSG, 12}, {SUBS, 4}, {SETEVAL, 6}, {REG, 8}, {QUERY, 2}, {ENV, 2}, {SRC, 3}});
-        set(p.w_script, {{LIFE, 40}, {MSG, 14}, {SETEVAL, 6}, {CTX, 8}, {REG, 6}, {SUBS, 3}});
-        p.mod_flag_bits = 1; p.src_kinds = 2; p.hooks_all = true;
+        set(p.w_driver, {{LIFE, 40}, {MSG, 12}, {SUBS, 4}, {SETEVAL, 6}, {REG, 8}, {QUERY, 2}, {ENV, 2}, {SRC, 3}, {BATCH, 3}});
+        set(p.w_script, {{LIFE, 40}, {MSG, 14}, {SETEVAL, 6}, {CTX, 8}, {REG, 6}, {SUBS, 3}, {BATCH, 2}});
+        p.mod_flag_bits = 1; p.src_kinds = 2; p.hooks_all = true; p.sub_flag_bits = 2 | 4 | 16;   // (batched / low-priority events: handlers also run when a pill hands them over)
     } else if (c == "C02") {
         set(p.w_driver, {{LIFE, 14}, {MSG, 40}, {SUBS, 18}, {REG, 4}, {BURST, 1}});
         set(p.w_script, {{LIFE, 14}, {MSG, 36}, {SUBS, 10}, {CTX, 12}, {REG, 2}, {BURST, 1}});
